@@ -406,6 +406,24 @@ class KInterp:
                     self.store(tt, self.eval(a.elts[k_], st), st, None)
                 self.block(s.body, st)
             return
+        if isinstance(it, ast.Call) and U(it.func) == "zip" and it.args and isinstance(s.target, ast.Tuple) \
+                and len(s.target.elts) == len(it.args) and not it.keywords:
+            # zip over Python sequences (tuples of column constants, lists of kernel outputs): unrolled
+            seqs = []
+            for a in it.args:
+                try:
+                    v_ = self.eval(a, st)
+                except Unsupported:
+                    v_ = None
+                if isinstance(v_, PyVal) and isinstance(v_.v, (list, tuple)):
+                    v_ = self._lift_pyconst(list(v_.v))
+                seqs.append(v_ if isinstance(v_, (list, tuple)) else None)
+            if all(q is not None for q in seqs):
+                for items in zip(*seqs):
+                    for tt, vv in zip(s.target.elts, items):
+                        self.store(tt, vv, st, None)
+                    self.block(s.body, st)
+                return
         if isinstance(it, ast.Call) and U(it.func) == "range" and len(it.args) == 1 and isinstance(s.target, ast.Name):
             lv = s.target.id
         elif isinstance(it, ast.Call) and U(it.func) == "enumerate" and isinstance(s.target, ast.Tuple) \
@@ -468,6 +486,23 @@ class KInterp:
                 env[t.id] = v
             else:
                 env[t.id] = self._select(G, v, env[t.id])
+            return
+        if isinstance(t, ast.Subscript) and isinstance(t.value, ast.Name) and isinstance(t.slice, ast.Tuple) and len(t.slice.elts) == 2 \
+                and isinstance(t.slice.elts[1], (ast.List, ast.Tuple)) and t.slice.elts[1].elts and not aug:
+            # arr[rows, [C1, C2]] = (v1, v2) / = v : one store per column
+            cols = t.slice.elts[1].elts
+            if v is not None:
+                vals = list(v) if isinstance(v, (list, tuple)) and len(v) == len(cols) else [v] * len(cols)
+                exprs = [None] * len(cols)
+            elif isinstance(value_expr, (ast.Tuple, ast.List)) and len(value_expr.elts) == len(cols):
+                vals, exprs = [None] * len(cols), list(value_expr.elts)
+            else:
+                vals, exprs = [None] * len(cols), [value_expr] * len(cols)
+            for c_, v_, e_ in zip(cols, vals, exprs):
+                t2 = ast.Subscript(value=t.value, slice=ast.Tuple(elts=[t.slice.elts[0], c_], ctx=ast.Load()), ctx=ast.Store())
+                ast.copy_location(t2, t)
+                ast.fix_missing_locations(t2)
+                self.store(t2, v_, st, e_)
             return
         if isinstance(t, ast.Subscript) and isinstance(t.value, ast.Name):
             name = t.value.id
